@@ -254,7 +254,73 @@ int main()
          unwind=TCAP + 2, timeout=600, solver=["--sat-solver", "cadical"],
          replay_native=TREPLAY % dict(cap=TCAP, tok=TTOK, spec=TSPEC_H, ca=CA, cb="IN_in_b0, IN_in_b1", nb="IN_in_nb", keep="(int)IN_in_keepDelim", what="split", call="got = rkcommon::utility::split(a, d, (bool)IN_in_keepDelim);"),
          ensures={"split_returns_exactly_the_non_empty_tokens_in_order": "__verif_exc == 0 && toks_ok(spec_tokens($0->b, $0->n, $1->b, $1->n, $2), RET.b, RET.n)"})
-    return [U, S, F, T]
+    # ---- PseudoURL: BOUNDED exact check of the constructor against the documented format, getValue (last duplicate wins), hasParam
+    USPEC_H = _os.path.join(_os.path.dirname(SPEC_H), "c18_url_spec.h")
+    UN = 9 if _os.environ.get("VERIF_TIER_EFFECTIVE") == "thorough" else 7
+    UCAP, UTOK = UN + 1, (UN + 1) // 2 + 1
+    uhelp = ("#define TS_CAP %d\n#define TS_MAXTOK %d\n#define TS_PTR(v, k) ((v)[k].b)\n#define TS_LEN(v, k) ((v)[k].n)\n" % (UCAP, UTOK) + open(TSPEC_H).read() + open(USPEC_H).read() + """
+static _Bool url_ok(urlspec w, PseudoURL *u)
+{
+  unsigned long k;
+  if (!ts_eq_buf(w.type, u->type.b, u->type.n) || !ts_eq_buf(w.file, u->fileName.b, u->fileName.n) || w.nparams != u->params.n) return 0;
+  for (k = 0; k < w.nparams && k < TS_MAXTOK; k++)
+    if (!ts_eq_buf(w.name[k], u->params.b[k].first.b, u->params.b[k].first.n) || !ts_eq_buf(w.value[k], u->params.b[k].second.b, u->params.b[k].second.n)) return 0;
+  return 1;
+}
+static _Bool str_same(std_basic_string_char *a, std_basic_string_char *b) { unsigned long i; if (a->n != b->n) return 0; for (i = 0; i < a->n && i < TS_CAP; i++) if (a->b[i] != b->b[i]) return 0; return 1; }
+/* index of the LAST parameter with that name, or -1 (k is concrete in every unwound iteration: see DESIGN.md 14.3) */
+static long last_param(PseudoURL *u, std_basic_string_char *name) { long k, r = -1; for (k = 0; k < (long)u->params.n && k < TS_MAXTOK; k++) if (str_same(&u->params.b[k].first, name)) r = k; return r; }
+/* r is the value of the LAST parameter with that name */
+static _Bool is_last_value(std_basic_string_char *r, PseudoURL *u, std_basic_string_char *name) { long k; _Bool ok = 0; for (k = 0; k < (long)u->params.n && k < TS_MAXTOK; k++) if (str_same(&u->params.b[k].first, name)) ok = str_same(r, &u->params.b[k].second); return ok; }
+""")
+    W = Unit("c18_url", "units/c18_url.cpp", helpers=uhelp, opts=dict(tracked_vec=True, tracked_str=True, bounded_str=UCAP, bounded_vec=UTOK))
+    def ush(o, tag, nmax):
+        return ("  unsigned long in_n%(t)s = nondet_ulong(); __CPROVER_assume(in_n%(t)s <= %(m)d); %(o)s.n = in_n%(t)s; %(o)s.cap = %(c)d;\n" % dict(o=o, t=tag, m=nmax, c=UCAP)
+                + "".join("  char in_%s%d = nondet_char(); %s.b[%d] = in_%s%d;\n" % (tag, k, o, k, tag, k) for k in range(nmax)))
+    UREPLAY = """
+#define TS_CAP %(cap)d
+#define TS_MAXTOK %(tok)d
+#define TS_PTR(v, k) ((v)[k].data())
+#define TS_LEN(v, k) ((v)[k].size())
+#include "%(tspec)s"
+#include "%(uspec)s"
+int main()
+{
+  const char ca[] = {%(ca)s, 0};
+  std::string a(ca, (size_t)IN_in_na);
+  rkcommon::utility::PseudoURL u(a);
+  urlspec w = spec_url(a.data(), a.size());
+  bool ok = ts_eq_buf(w.type, u.type.data(), u.type.size()) && ts_eq_buf(w.file, u.fileName.data(), u.fileName.size()) && w.nparams == u.params.size();
+  for (unsigned long k = 0; ok && k < w.nparams && k < TS_MAXTOK; k++)
+    ok = ts_eq_buf(w.name[k], u.params[k].first.data(), u.params[k].first.size()) && ts_eq_buf(w.value[k], u.params[k].second.data(), u.params[k].second.size());
+  printf("PseudoURL(\\"%%s\\"): type [%%s] file [%%s] %%lu parameter(s):", a.c_str(), u.type.c_str(), u.fileName.c_str(), (unsigned long)u.params.size());
+  for (auto &p : u.params) printf(" [%%s]=[%%s]", p.first.c_str(), p.second.c_str());
+  printf("; the format gives type [%%.*s] file [%%.*s] %%lu parameter(s):", (int)w.type.n, w.type.c, (int)w.file.n, w.file.c, w.nparams);
+  for (unsigned long k = 0; k < w.nparams && k < TS_MAXTOK; k++) printf(" [%%.*s]=[%%.*s]", (int)w.name[k].n, w.name[k].c, (int)w.value[k].n, w.value[k].c);
+  printf("\\nREPLAY RESULT: %%s\\n", ok ? "not reproduced" : "violation reproduced on real code");
+  return ok ? 0 : 1;
+}
+""" % dict(cap=UCAP, tok=UTOK, tspec=TSPEC_H, uspec=USPEC_H, ca=", ".join("IN_in_a%d" % k for k in range(UN)))
+    W.fn("pu_ctor", pre_call=ush("o_@1", "a", UN), noalias=True, requires=["$1->n <= %d" % UN, "__verif_exc == 0"], assigns=["*$0", "__verif_exc"], unwind=UCAP + 2, timeout=1800, solver=["--sat-solver", "cadical"],
+         replay_native=UREPLAY, ensures={"constructor_parses_type_file_and_parameters_as_the_format_states": "__verif_exc == 0 && url_ok(spec_url($1->b, $1->n), $0)"})
+    # accessors on an arbitrary parsed state: at most 3 parameters with names/values of at most 2 characters
+    def upre():
+        t = "  unsigned long in_np = nondet_ulong(); __CPROVER_assume(in_np <= 3); o_@0.params.n = in_np; o_@0.params.cap = %d;\n" % UTOK
+        for k in range(3):
+            for f in ("first", "second"):
+                t += "  { unsigned long l = nondet_ulong(); __CPROVER_assume(l <= 2); o_@0.params.b[%d].%s.n = l; o_@0.params.b[%d].%s.b[0] = nondet_char(); o_@0.params.b[%d].%s.b[1] = nondet_char(); }\n" % (k, f, k, f, k, f)
+        t += "  { unsigned long l = nondet_ulong(); __CPROVER_assume(l <= 2); o_@0.type.n = l; l = nondet_ulong(); __CPROVER_assume(l <= 2); o_@0.fileName.n = l; }\n"
+        return t
+    UREQ = ["$0->params.n <= 3 && $0->type.n <= 2 && $0->fileName.n <= 2", "__verif_exc == 0"] + ["$0->params.b[%d].first.n <= 2 && $0->params.b[%d].second.n <= 2" % (k, k) for k in range(3)]
+    acc = dict(unwind=UCAP + 2, timeout=600, solver=["--sat-solver", "cadical"], noalias=True)
+    W.fn("pu_getType", pre_call=upre(), requires=UREQ, assigns=["__verif_exc"], ensures={"getType_returns_the_parsed_type": "__verif_exc == 0 && str_same(&RET, &$0->type)"}, **acc)
+    W.fn("pu_getFileName", pre_call=upre(), requires=UREQ, assigns=["__verif_exc"], ensures={"getFileName_returns_the_parsed_file_name": "__verif_exc == 0 && str_same(&RET, &$0->fileName)"}, **acc)
+    W.fn("pu_getValue", pre_call=upre() + ush("o_@1", "b", 2), requires=UREQ + ["$1->n <= 2"], assigns=["__verif_exc"], ensures={
+        "getValue_throws_exactly_for_an_unknown_name": "(__verif_exc != 0) == (last_param($0, $1) < 0) && IMP(__verif_exc != 0, __verif_exc == EXC_std_runtime_error)",
+        "getValue_returns_the_value_of_the_last_parameter_with_that_name": "IMP(__verif_exc == 0, is_last_value(&RET, $0, $1))"}, **acc)
+    W.fn("pu_hasParam", pre_call=upre() + ush("o_@1", "b", 2), requires=UREQ + ["$1->n <= 2"], assigns=["__verif_exc"], ensures={
+        "hasParam_iff_some_parameter_has_that_name": "__verif_exc == 0 && RET == (last_param($0, $1) >= 0)"}, **acc)
+    return [U, S, F, T, W]
     reset = "  g_calls = 0; g_kind = 0; g_suffix = 0;\n"
     INR = "(dabs($0) >= 1e-15 && dabs($0) < 1e21)"
     U.fn("x_prettyDouble", pre_call=reset, requires=["g_calls == 0", "__verif_exc == 0"], assigns=GA + ["__verif_exc"], solver=["--sat-solver", "cadical"], timeout=900, ensures={
@@ -266,10 +332,10 @@ int main()
 
 META = dict(
     level="other",
-    level_text="PARTIAL coverage of the statement; items (4) and (5) are BOUNDED exact checks. (4) FileName: the string constructor, path, base, ext, name, dropExt, setExt, addExt, operator+ and == are extracted and checked with CBMC (bounded unwinding) against specification functions written from the property (include/c18_filename_spec.h: dot and separator of the LAST component, normalisation of separators) for every name of at most 6 characters and every extension / right operand of at most 3 (8 / 4 thorough), arbitrary bytes. (5) tokenize and split(delimiter set, keepDelim) are checked the same way against 'exactly the maximal runs of non-delimiter characters, in order, one-character tokens included' for every string of at most 5 characters (7 thorough) and every delimiter (set of at most 2). (1) removeArgs is extracted from /repo and proved by CBMC (function contract + loop contract, any argc): the count drops by howMany, arguments before `where` are untouched and every later argument moves down by howMany in order (ghost positions). (2) prettyDouble and prettyNumber are extracted and decided by the math back end (z3 over the reals, float literals at their exact binary32 values, snprintf as a recording interface model): for every magnitude in [1e-15, 1e21) (prettyNumber: every size_t) the mantissa handed to the formatter lies in [0.95, 1000.05) -- i.e. prints as 1.0 .. 1000.0 -- and mantissa x 10^(suffix) equals the input within 1e-6 relative; plain numbers are printed unscaled. (3) longestBeginningMatch and beginsWith are extracted and proved by CBMC on a value-tracking std::string model for strings of ANY length up to 2^40: the result of longestBeginningMatch is a common prefix (ghost position), is the longest one, and beginsWith is true only for prefixes and true for every prefix; the same two functions are also checked EXACTLY (full prefix relation, exact common-prefix length) for strings of at most 4 characters with bounded unwinding, which yields natively replayable counterexamples.",
-    level_note="NOT covered (unverified): split on a single character (std::getline on a stringstream), lowerCase/upperCase, the PseudoURL constructor/getValue/hasParam on top of tokenize, FileName::operator-/canonical/homeFolder, ArgumentList/ArgumentsParser::parseAndRemove. The FileName and tokenize/split checks are BOUNDED (string lengths above; std::string and std::vector are bounded CODE models with inline storage, loops unwound with unwinding assertions) -- not proofs for longer strings. Floating point is treated as real arithmetic in (2) (rounding of the division and of %.1f is not modelled). std::string is a value-tracking MODEL; std::mismatch/std::equal/std::min are reference models; the string range constructor is an assumed contract instantiated at ghost positions. removeArgs is proved under its natural precondition 0 <= where, 0 <= howMany, where + howMany <= ac.",
+    level_text="PARTIAL coverage of the statement; items (4), (5) and (6) are BOUNDED exact checks. (4) FileName: the string constructor, path, base, ext, name, dropExt, setExt, addExt, operator+ and == are extracted and checked with CBMC (bounded unwinding) against specification functions written from the property (include/c18_filename_spec.h: dot and separator of the LAST component, normalisation of separators) for every name of at most 6 characters and every extension / right operand of at most 3 (8 / 4 thorough), arbitrary bytes. (5) tokenize and split(delimiter set, keepDelim) are checked the same way against 'exactly the maximal runs of non-delimiter characters, in order, one-character tokens included' for every string of at most 5 characters (7 thorough) and every delimiter (set of at most 2). (6) PseudoURL: the constructor is checked the same way against a specification function written from the documented format <type>://<file>[:name=value]* (first '://' ends the type, ':'-separated non-empty components, first '=' splits name from value) for every input of at most 7 characters (9 thorough); getType/getFileName return the parsed parts, getValue returns the value of the LAST parameter with the name and throws std::runtime_error exactly when there is none, hasParam is existence (parsed states with at most 3 parameters of at most 2+2 characters). (1) removeArgs is extracted from /repo and proved by CBMC (function contract + loop contract, any argc): the count drops by howMany, arguments before `where` are untouched and every later argument moves down by howMany in order (ghost positions). (2) prettyDouble and prettyNumber are extracted and decided by the math back end (z3 over the reals, float literals at their exact binary32 values, snprintf as a recording interface model): for every magnitude in [1e-15, 1e21) (prettyNumber: every size_t) the mantissa handed to the formatter lies in [0.95, 1000.05) -- i.e. prints as 1.0 .. 1000.0 -- and mantissa x 10^(suffix) equals the input within 1e-6 relative; plain numbers are printed unscaled. (3) longestBeginningMatch and beginsWith are extracted and proved by CBMC on a value-tracking std::string model for strings of ANY length up to 2^40: the result of longestBeginningMatch is a common prefix (ghost position), is the longest one, and beginsWith is true only for prefixes and true for every prefix; the same two functions are also checked EXACTLY (full prefix relation, exact common-prefix length) for strings of at most 4 characters with bounded unwinding, which yields natively replayable counterexamples.",
+    level_note="NOT covered (unverified): split on a single character (std::getline on a stringstream), lowerCase/upperCase, FileName::operator-/canonical/homeFolder, ArgumentList/ArgumentsParser::parseAndRemove. The FileName and tokenize/split checks are BOUNDED (string lengths above; std::string and std::vector are bounded CODE models with inline storage, loops unwound with unwinding assertions) -- not proofs for longer strings. Floating point is treated as real arithmetic in (2) (rounding of the division and of %.1f is not modelled). std::string is a value-tracking MODEL; std::mismatch/std::equal/std::min are reference models; the string range constructor is an assumed contract instantiated at ghost positions. removeArgs is proved under its natural precondition 0 <= where, 0 <= howMany, where + howMany <= ac.",
     explanation="mixed: CBMC function/loop contracts (removeArgs, prefix helpers), z3 real arithmetic VCs (number formatting), bounded exact variants for replay",
     assumptions=["bounded std::string / std::vector code models (FileName, tokenize, split)", "snprintf recording interface model", "floating point treated as real arithmetic (prettyDouble/prettyNumber)", "std::string value-tracking model; std::mismatch/std::equal/std::min reference models", "string range constructor: assumed contract at ghost positions", "strings shorter than 2^40", "allocation never fails"],
-    bounded=["FileName operations: names of at most 6 characters, extensions / right operands of at most 3 (8 / 4 thorough), unwind capacity+2", "tokenize / split(set): strings of at most 5 characters (7 thorough), delimiter sets of at most 2 characters, unwind capacity+2", "s_beginsWith#short, s_longestBeginningMatch#short: strings of at most 4 characters, unwind 6 (exact specification; the unbounded variants carry the proof)"],
-    unverified=["split(string, char) via getline", "lowerCase/upperCase", "PseudoURL constructor / getValue / hasParam", "FileName::operator- / canonical / homeFolder", "ArgumentList / parseAndRemove", "decimal rendering of %.1f"],
+    bounded=["FileName operations: names of at most 6 characters, extensions / right operands of at most 3 (8 / 4 thorough), unwind capacity+2", "tokenize / split(set): strings of at most 5 characters (7 thorough), delimiter sets of at most 2 characters, unwind capacity+2", "PseudoURL: constructor inputs of at most 7 characters (9 thorough); accessors on at most 3 parameters with names/values of at most 2 characters", "s_beginsWith#short, s_longestBeginningMatch#short: strings of at most 4 characters, unwind 6 (exact specification; the unbounded variants carry the proof)"],
+    unverified=["split(string, char) via getline", "lowerCase/upperCase", "FileName::operator- / canonical / homeFolder", "ArgumentList / parseAndRemove", "decimal rendering of %.1f"],
 )
